@@ -307,6 +307,19 @@ pub fn run_descriptors(seed: u64, per_case: usize, out: &mut dyn Write) {
     }
 }
 
+/// Every boundary value of every type (gen::boundary_values) under a known canonical spelling, an alias spelling and
+/// an unknown class; independent of the seed.
+pub fn run_boundary(k: usize, out: &mut dyn Write) {
+    std::panic::set_hook(Box::new(|_| {}));
+    let known = gen::known_props(rbx_reflection_database::get());
+    for (ci, (label, dom)) in gen::boundary_doms(&gen::BINARY_TYPES, &known, false, k, true, 6).into_iter().enumerate() {
+        let roots: Vec<Ref> = dom.root().children().to_vec();
+        let ev = bin_event(&format!("bound:{}", label), &dom, &roots, ci % 10 == 0);
+        serde_json::to_writer(&mut *out, &ev).unwrap();
+        out.write_all(b"\n").unwrap();
+    }
+}
+
 /// A value for property `name` of class `class`, typed by the descriptor's own declared type
 /// (alias spellings have their own type, e.g. Color3uint8), distinct per `salt`.
 pub fn value_for_spelling(class: &str, name: &str, salt: u32) -> rbx_dom_weak::types::Variant {
